@@ -3,7 +3,7 @@ from __future__ import annotations
 
 import ast
 
-from ..core import (AnalysisError, call_name, const, dotted, is_const, kwarg, local_defs, norm, origin,
+from ..core import (AnalysisError, call_name, const, module_const, dotted, is_const, kwarg, local_defs, norm, origin,
                     parent_map, walk_local)
 from ..facts import default_of, guards_of, returns_of, enclosing_loops
 from ..rules import canon as C
@@ -194,7 +194,34 @@ def relabel_morgan(rep):
     rep.ob("O8.2", "R4", fi, ok, key if key is not None else (order if order is not None else "order"), "the Morgan ordering is total (node id as final tie-breaker)")
 
 
+def origin_of_list(mi, node):
+    """the literal an argument denotes: itself, or the module-level literal a Name is bound to"""
+    if isinstance(node, ast.Name):
+        for st in mi.tree.body:
+            tg = st.targets[0] if isinstance(st, ast.Assign) and len(st.targets) == 1 else (st.target if isinstance(st, ast.AnnAssign) and st.value is not None else None)
+            if isinstance(tg, ast.Name) and tg.id == node.id:
+                return st.value
+    return node
+
+
 def dispatch(rep, rel):
+    # the exact back-end is configured with the bond attribute(s) the signature covers: a LIST of names containing 'order'
+    # (a bare string is iterated character by character by the back-end, which then ignores every bond label)
+    init = rep.f(rel, GC + "__init__")
+    ctor = [c for c in walk_local(init.node) if isinstance(c, ast.Call) and call_name(c) == "NautyCanonicalizer"]
+    for c in ctor:
+        ea = kwarg(c, "edge_attrs") or (c.args[1] if len(c.args) > 1 else None)
+        ok = None
+        val = None
+        if ea is not None:
+            try:
+                val = module_const(init.module, ea)
+                ok = isinstance(val, tuple) and "order" in val and all(isinstance(x, str) for x in val) and isinstance(origin_of_list(init.module, ea), (ast.List, ast.Tuple))
+                if isinstance(val, str):
+                    ok = False
+            except ValueError:
+                ok = None
+        rep.ob("O8.4", "R12", init, ok, c, "the exact back-end compares bonds on a list of attribute names that contains 'order'", {"edge_attrs": repr(val)}, node=c)
     fi = rep.f(rel, GC + "_make_canonical_graph")
     pm = parent_map(fi.node)
     want = {"'generic'": "_canon_generic", "'wl'": "_canon_wl", "'nauty'": "_canon_nauty"}
@@ -289,11 +316,11 @@ def serialise(rep, rel):
     # node key covers the matched attributes
     nk = rep.f(rel, "_default_node_key")
     rets = returns_of(nk.node)
-    keys = [const(c.args[0]) for c in ast.walk(rets[-1].value) if isinstance(c, ast.Call) and call_name(c) == "get"] if rets else []
+    keys = [module_const(nk.module, c.args[0]) for c in ast.walk(rets[-1].value) if isinstance(c, ast.Call) and call_name(c) == "get"] if rets else []
     rep.ob("O8.3", "COVER", nk, {"element", "charge", "aromatic", "hcount"} <= set(keys), keys, "the node key covers element, charge, aromaticity and hydrogen count")
     ek = rep.f(rel, "_default_edge_key")
     rets = returns_of(ek.node)
-    keys = [const(c.args[0]) for c in ast.walk(rets[-1].value) if isinstance(c, ast.Call) and call_name(c) == "get"] if rets else []
+    keys = [module_const(ek.module, c.args[0]) for c in ast.walk(rets[-1].value) if isinstance(c, ast.Call) and call_name(c) == "get"] if rets else []
     rep.ob("O8.3", "COVER", ek, {"order", "standard_order"} <= set(keys), keys, "the edge key covers order and standard_order")
 
 
